@@ -8,7 +8,8 @@
 use skim::prelude::*;
 use skim::verif as V;
 use skim::verif::{Event as Ev, EventHandler, Previewer};
-use skim::{ItemPreview, PreviewContext};
+use skim::{ItemPreview, PreviewContext, PreviewPosition};
+use tuikit::prelude::Size;
 use skv::canvas::Rec;
 use skv::*;
 use std::collections::BTreeSet;
@@ -35,6 +36,19 @@ impl SkimItem for TxtItem {
     }
     fn preview(&self, ctx: PreviewContext) -> ItemPreview {
         ItemPreview::Text(format!("OUT {} text\nl2\nl3", ctx.query))
+    }
+}
+
+/// text preview that asks for an initial scroll position far beyond its three lines
+struct PosItem {
+    text: String,
+}
+impl SkimItem for PosItem {
+    fn text(&self) -> Cow<str> {
+        Cow::Borrowed(&self.text)
+    }
+    fn preview(&self, ctx: PreviewContext) -> ItemPreview {
+        ItemPreview::TextWithPos(format!("OUT {} pos\nl2\nl3", ctx.query), PreviewPosition { v_scroll: Size::Fixed(40), ..Default::default() })
     }
 }
 
@@ -126,7 +140,7 @@ fn run_case(seed: u64, id: u64, out: &mut Vec<String>) {
         match r.below(12) {
             0..=2 => { cur_item = Some(r.below(4) as usize); }
             3 => { cur_item = Some(if cur_item == Some(0) { 5 } else { 0 }); }   // 5: another entry with the same text as 0
-            4 => { cur_item = Some(4); }                       // the text-previewed item
+            4 => { cur_item = Some(if r.chance(1, 2) { 4 } else { 6 }); }   // a text-previewed item (6: with a scroll position beyond its content)
             5 => { cur_item = None; }
             6..=7 => { q_no += 1; }
             8 => { let k = r.below(4) as usize; if cur_sel.contains(&k) { cur_sel.retain(|x| *x != k); } else { cur_sel.push(k); cur_sel.sort(); } }
@@ -141,7 +155,8 @@ fn run_case(seed: u64, id: u64, out: &mut Vec<String>) {
     // ---- run ---------------------------------------------------------------------------------------
     let items: Vec<Arc<dyn SkimItem>> = (0..4).map(|k| Arc::new(CmdItem { text: format!("{} it{}", delays[k], k) }) as Arc<dyn SkimItem>)
         .chain(std::iter::once(Arc::new(TxtItem { text: "000 txt".to_string() }) as Arc<dyn SkimItem>))
-        .chain(std::iter::once(Arc::new(CmdItem { text: format!("{} it0", delays[0]) }) as Arc<dyn SkimItem>)).collect();
+        .chain(std::iter::once(Arc::new(CmdItem { text: format!("{} it0", delays[0]) }) as Arc<dyn SkimItem>))
+        .chain(std::iter::once(Arc::new(PosItem { text: "000 pos".to_string() }) as Arc<dyn SkimItem>)).collect();
     let content_cell: Arc<Mutex<Option<Arc<V::SpinLock<Vec<AnsiString<'static>>>>>>> = Arc::new(Mutex::new(None));
     let seen: Arc<Mutex<Vec<String>>> = Arc::new(Mutex::new(Vec::new()));
     let (cc, sn) = (content_cell.clone(), seen.clone());
@@ -172,8 +187,9 @@ fn run_case(seed: u64, id: u64, out: &mut Vec<String>) {
             labels_of_send.push(match c.item {
                 None => "-".to_string(),
                 Some(4) => format!("OUT {} text", c.query),
+                Some(6) => format!("OUT {} pos", c.query),
                 // {+2}: the second field of every selected item, or of the current item when nothing is selected
-                Some(k) => format!("OUT {} it{} N={} SEL={}", c.query, k % 5, k, if c.sel.is_empty() { format!("it{}", k % 5) } else { c.sel.iter().map(|x| if *x == 4 { "txt".to_string() } else { format!("it{}", x) }).collect::<Vec<_>>().join(" ") }),
+                Some(k) => format!("OUT {} it{} N={} SEL={}", c.query, k % 5, k, if c.sel.is_empty() { format!("it{}", k % 5) } else { c.sel.iter().map(|x| if *x == 4 { "txt".to_string() } else { format!("it{}", x % 5) }).collect::<Vec<_>>().join(" ") }),
             });
         }
     }
@@ -197,6 +213,8 @@ fn run_case(seed: u64, id: u64, out: &mut Vec<String>) {
     }
     let final_first = pv.verif_content().lock().first().map(|l| l.stripped().to_string());
     let n_lines = pv.verif_content().lock().len();
+    let init_off = pv.verif_vscroll();
+    let nth_line = pv.verif_content().lock().get(init_off.saturating_sub(1)).map(|l| l.stripped().to_string());
     // the pane as drawn
     let mut cv = Rec::new(60, 8);
     let _ = pv.draw(&mut cv);
@@ -252,8 +270,10 @@ fn run_case(seed: u64, id: u64, out: &mut Vec<String>) {
         if labels_of_send[last] != "-" {
             if final_first.as_deref() != Some(labels_of_send[last].as_str()) {
                 bad = Some((format!("settled pane shows {:?}, the newest request's output is {:?}", final_first, labels_of_send[last]), None));
-            } else if !drawn_row0.starts_with(&labels_of_send[last]) {
-                bad = Some((format!("settled pane is drawn as {:?}, expected to start with {:?}", drawn_row0.trim_end(), labels_of_send[last]), None));
+            } else if init_off < 1 || init_off > n_lines.max(2) - 1 {
+                bad = Some((format!("settled pane is scrolled to line {} of {} lines", init_off, n_lines), None));
+            } else if !nth_line.as_ref().map(|l| drawn_row0.starts_with(l.as_str())).unwrap_or(false) {
+                bad = Some((format!("settled pane is drawn as {:?}, expected to start with line {} of the content, {:?}", drawn_row0.trim_end(), init_off, nth_line), None));
             }
         }
     }
@@ -275,6 +295,9 @@ fn run_case(seed: u64, id: u64, out: &mut Vec<String>) {
         coq::opt(c.item.map(|k| coq::n(k as u64))), coq::opt(Some(coq::text(&c.query))), c.sel.len(), coq::b(c.force))));
     out.push(format!("{}\tcase\t(KFront {} {})", id, fcalls, coq::list(sent.iter().map(|b| coq::b(*b)))));
     for (b, d, n, g) in &scrolls { out.push(format!("{}\tcase\t(KScroll {} {} {} {})", id, b, coq::z(*d), n, g)); }
+    if settled && calls.iter().rev().zip(sent.iter().rev()).find(|(_, s)| **s).map(|(c, _)| c.item == Some(6)).unwrap_or(false) && final_first.as_deref() == labels_of_send.last().map(|x| x.as_str()) {
+        out.push(format!("{}\tcase\t(KScrollInit 40 {} {})", id, n_lines, init_off));
+    }
     // linearisation of the worker / waiter trace
     if settled {
         let main_tag = trace.iter().find(|e| e.1 == "pv.send").map(|e| e.0);
